@@ -29,6 +29,8 @@ type HarnessCfg struct {
 	TimeoutS  int    `json:"timeout_s"`
 	Witnesses int    `json:"witnesses"` // path witnesses to validate natively
 	CrossSkip string `json:"cross_skip"` // solvers to skip in the thorough cross-check
+	Params    map[string]int `json:"params"` // harness parameters read with vParam
+	Solver    string `json:"solver"` // primary solver for this harness (default cvc5-int)
 
 	stubs        map[string]*ssa.Function
 	growMonitors []func(ex *Exec, n *Term)
